@@ -32,13 +32,17 @@ REAL = [
 ]
 STUB = [
     "event loop + executor (sim.loop.SimLoop: seeded choice of which parked await / executor job completes)",
+    "thread scheduler (sim.threads.ThreadSim: real caller threads, one runs at a time, seeded pre-emption at line events "
+    "inside the library; threading.Lock of liquid2.utils.lru_cache replaced by SimLock)",
     "wall clock (sim.clock shim behind the modules' `datetime` name, time.time)",
-    "file system (sim.simfs.SimFS behind pathlib.Path.stat/open for /simfs paths)",
+    "file system (sim.simfs.SimFS behind pathlib.Path.stat/open, os.stat/lstat/fstat, open(), os.getcwd for /simfs and "
+    "relative simrel* paths; regular files, directories, symbolic links, mtimes, stored encoding)",
     "template storage (LoggingDict / NsStore / SimFS contents) and thin loader subclasses that add one await point",
     "render data (sim.drops.SimDrop/SimSeqDrop test doubles), translation catalog double",
 ]
 
-FAULT_KEYS = ("F1_", "F2_", "F3_", "F4_", "F5_", "F6", "F7_", "F8_", "F9_", "F10_", "eio_fired")
+FAULT_KEYS = ("F1_", "F2_", "F3_", "F4_", "F5_", "F6", "F7_", "F8_", "F9_", "F10_", "F11_", "F12_", "F13_",
+              "F14_", "F15_", "eio_fired", "thread_preemptions", "thread_lock_yields")
 
 
 def write(pid: str, level: str, tier: str, master: int, total: dict, known_hits: dict,
@@ -90,8 +94,9 @@ def write(pid: str, level: str, tier: str, master: int, total: dict, known_hits:
         "coverage": cov,
         "assumptions": [
             "sampling, not enumeration: a clean batch is evidence, not proof",
-            "code between two awaits is atomic (asyncio semantics); caller threads are not simulated",
-            "SimFS models regular files and mtimes only",
+            "code between two awaits is atomic (asyncio semantics); caller threads are pre-empted only at line "
+            "events inside liquid2 source files (not inside C code or third-party modules)",
+            "SimFS models regular files, directories, symbolic links to files and mtimes only",
         ] + ([f"probes at zero in this run: {', '.join(zero)}"] if zero else []),
         "wall_s": round(wall_s, 2),
         "violations": n_violations,
